@@ -66,25 +66,30 @@ Proof.
   repeat match goal with |- _ /\ _ => split end;
     first [vm_compute; reflexivity | vm_compute; tauto].
 Qed.
-Lemma refuted_next :
-  (Gb w_next = true /\ agrees w_next W8 = false /\ In (1, 1) (rdr w_next W8) /\ ~ In (1, 1) (model_tags w_next W8)) /\
-  (Gb w_alt_next = true /\ agrees w_alt_next W8 = false /\ In (2, 1) (rdr w_alt_next W8) /\ ~ In (2, 1) (model_tags w_alt_next W8)).
+(* C08-d/e (next_rule dropped for a binding an earlier branch concluded; repaired by /repo 35fa150) and C08-g
+   (alternative after a next_rule fired for bindings whose earlier branch fired; repaired by /repo 6dfdafd):
+   regression witnesses -- the tree is the written one and the model's run is the Spec's answer *)
+Definition w_next_alt := Rule (cnd CLe 1) None [(KNext, leafr CEq 3 1); (KAlt, leafr CLe 4 2)].
+Lemma fixed_next :
+  (Gb w_next = true /\ agrees w_next W8 = true /\ In (1, 1) (model_tags w_next W8)) /\
+  (Gb w_alt_next = true /\ agrees w_alt_next W8 = true /\ In (2, 1) (model_tags w_alt_next W8)) /\
+  (Gb w_next_alt = true /\ agrees w_next_alt W8 = true /\ ~ In (2, 0) (model_tags w_next_alt W8)).
 Proof.
-  split; (split; [vm_compute; reflexivity|]; split; [vm_compute; reflexivity|]; split; [vm_compute; tauto|];
-          vm_compute; intuition congruence).
+  repeat match goal with |- _ /\ _ => split end;
+    first [vm_compute; reflexivity | vm_compute; tauto | vm_compute; intuition congruence].
 Qed.
 
-(* C08-g: an alternative written after a next_rule fires also for the elements for which the base rule fired.
-   Next is a Union: its second pass yields a false row for an element whose left side held, and the enclosing
-   Alternative takes that row as "nothing fired".  On the current code the extra conclusion is then usually dropped by
-   concluded_before (the cause of C08-d/e); it shows when the earlier branch concluded nothing, as here (base without Add). *)
-Definition w_next_alt := Rule (cnd CLe 1) None [(KNext, leafr CEq 3 1); (KAlt, leafr CLe 4 2)].
-Lemma refuted_next_alt :
-  Gb w_next_alt = true /\ agrees w_next_alt W8 = false /\
-  ~ In (2, 0) (rdr w_next_alt W8) /\ In (2, 0) (model_tags w_next_alt W8).
+(* the reading the property text does not settle: next_rule in the level of a second sibling refinement while the
+   first sibling refinement fires.  Spec: W3 for element 1 in addition; tree (and implementation): the first refinement
+   overrides everything written after it.  Not a finding; such programs are outside the fragment. *)
+Definition w_unsettled :=
+  Rule (cnd CLe 3) (Some 0) [(KRef, leafr CEq 1 1); (KRef, Rule (cnd CGe 1) (Some 2) [(KNext, leafr CLe 2 3)])].
+Lemma unsettled_reading :
+  later_ref_next w_unsettled = true /\ Gb w_unsettled = true /\
+  In (3, 1) (rdr w_unsettled W8) /\ ~ In (3, 1) (model_tags w_unsettled W8) /\ In (3, 2) (model_tags w_unsettled W8).
 Proof.
-  split; [vm_compute; reflexivity|]. split; [vm_compute; reflexivity|]. split; [vm_compute; intuition congruence|].
-  vm_compute. tauto.
+  repeat match goal with |- _ /\ _ => split end;
+    first [vm_compute; reflexivity | vm_compute; tauto | vm_compute; intuition congruence].
 Qed.
 
 (* ---- Part B: assembling the theorem on the fragment ---- *)
